@@ -1,15 +1,18 @@
-    /// C19: a target that crosses the boundary (router -> wire -> router) arrives with the same identifier and the same
-    /// IPv4 or IPv6 socket address — from the contracts of the two conversions alone
+    /// C19: a target that crosses the boundary (router -> wire -> router) arrives with the same identifier, the same
+    /// IPv4 or IPv6 socket address and the same metadata — from the contracts of the two conversions alone
     pub proof fn lemma_round_trip(t: passage_adapters::Target, w: Target, back: Result<passage_adapters::Target, Error>)
         requires
             // contract of `From<&Target> for proto::Target`
             w.identifier@ == t.identifier@,
             w.address matches Some(a) && a.hostname@ == ip_text(t.address.ipaddr) && a.port == t.address.portno as u32,
+            entries_map(w.meta@) == t.meta.m@,
             // contract of `TryFrom<proto::Target> for Target`
             (w.address is Some && parse_ip(w.address->0.hostname@) is Some && w.address->0.port <= 65535) ==> (back matches Ok(t2) && t2.identifier@ == w.identifier@
                 && t2.address == (SocketAddr { ipaddr: parse_ip(w.address->0.hostname@)->0, portno: w.address->0.port as u16 })),
+            back matches Ok(t2) ==> t2.meta.m@ == entries_map(w.meta@),
         ensures
             back matches Ok(t2) && t2.identifier@ == t.identifier@ && t2.address == t.address, // @cl:C19.round_trip.same_identifier_and_address
+            back matches Ok(t2) && t2.meta.m@ == t.meta.m@, // @cl:C19.round_trip.same_metadata
     {
         broadcast use axiom_parse_ip_text;
     }
